@@ -130,7 +130,7 @@ def generate(rnd, tier):
     objects = []
     for _ in range(n_obj):
         r = rnd.random()
-        prev = [o for o in objects if o["kind"] == "scores" and len(o["pos"]) > 1 and len(o["neg"]) > 1]
+        prev = [o for o in objects if o["kind"] == "scores" and len(o["pos"]) > 1 and len(o["neg"]) > 1 and not o.get("synth")]
         if prev and rnd.random() < 0.45:
             # a near-clone of an earlier object: same sizes and extremes, different interior / flags / easy
             # counts - the inputs on which a cache or memo keyed on part of the state returns stale results
@@ -155,7 +155,7 @@ def generate(rnd, tier):
             objects.append(o)
             continue
         if r < 0.55:
-            o = c11.gen_source(rnd, rnd.choice(["tiny", "small", "small"]) if rnd.random() < 0.96 else "huge", rnd.random() < 0.3)
+            o = c11.gen_source(rnd, rnd.choice(["tiny", "small", "small"]) if rnd.random() < 0.96 else rnd.choice(["huge", "huge", "huge", "giant"]), rnd.random() < 0.3)
             o["kind"] = "scores"
             o["readonly"] = rnd.random() < 0.2
             o["swaps"] = rnd.choice([0, 0, 0, 1, 2])
@@ -599,8 +599,10 @@ def execute(scn, ctx):
         if spec["kind"] == "group":
             probe("group_object")
         if spec["kind"] == "scores":
-            if not spec["pos"] or not spec["neg"]:
+            if (not spec["pos"] or not spec["neg"]) and not spec.get("synth"):
                 probe("empty_class")
+            if spec.get("synth"):
+                probe("giant_source")
             if spec.get("dtype") == "int64":
                 probe("int_scores")
             if spec.get("readonly"):
